@@ -381,6 +381,61 @@ async fn step(w: &mut World, op: &J) -> J {
     res
 }
 
+/// Scripted multi-step lag / trim patterns with seeded variation (C09): a replica deletes an entry, purges it to a
+/// tombstone after the recycle window and reaps it (trimming its RUV) after the changelog window, while another
+/// replica stays out of contact and may have edited the entry; optional local writes on old entries after the
+/// trim; then the stale replica meets the trimmed one in both directions. Random steps rarely line these up.
+fn gen_lag_pattern(rng: &mut Rng, n: usize) -> Vec<J> {
+    let mut v = vec![json!({"op":"init","n":n})];
+    let creator = NAMES[rng.below(n as u64) as usize];
+    for e in 1..=3u64 {
+        v.push(json!({"op":"create","r":creator,"e":e,"name":format!("p{e}"),"kind":"person"}));
+    }
+    v.push(json!({"op":"create","r":creator,"e":5,"name":"g5","kind":"group"}));
+    v.push(json!({"op":"mesh"}));
+    // every replica writes once so that every server id is known everywhere (established topology)
+    if rng.chance(2, 3) {
+        for i in 0..n {
+            v.push(json!({"op":"setdn","r":NAMES[i],"e":3,"v":format!("d{}", i)}));
+        }
+        v.push(json!({"op":"mesh"}));
+    }
+    let del = NAMES[rng.below(n as u64) as usize];                    // the replica that deletes and trims
+    let mut stale = NAMES[rng.below(n as u64) as usize];              // the replica that stays out of contact
+    while stale == del { stale = NAMES[rng.below(n as u64) as usize]; }
+    let victim = rng.range(1, 2);
+    if rng.chance(1, 2) { v.push(json!({"op":"setdn","r":stale,"e":victim,"v":"d9"})); }
+    if rng.chance(1, 3) { v.push(json!({"op":"addmem","r":stale,"g":5,"m":victim})); }
+    v.push(json!({"op":"delete","r":del,"e":victim}));
+    if rng.chance(1, 3) { v.push(json!({"op":"repl","from":del,"to":stale})); }
+    v.push(json!({"op":"advance","dt":604_801 + rng.below(1000)}));
+    v.push(json!({"op":"purge_rec","r":del}));
+    if rng.chance(1, 4) { v.push(json!({"op":"setdn","r":stale,"e":victim,"v":"d8"})); }
+    v.push(json!({"op":"advance","dt":604_801 + rng.below(100_000)}));
+    v.push(json!({"op":"purge_ts","r":del}));
+    // local writes on old entries after the trim
+    for _ in 0..rng.below(3) {
+        let k = rng.below(3);
+        let op = match k {
+            0 => json!({"op":"setdn","r":del,"e":3,"v":format!("d{}", rng.below(5))}),
+            1 => json!({"op":"addmem","r":del,"g":5,"m":3}),
+            _ => json!({"op":"setdn","r":del,"e":if victim == 1 { 2 } else { 1 },"v":"d7"}),
+        };
+        v.push(op);
+    }
+    if rng.chance(1, 3) { v.push(json!({"op":"setdn","r":stale,"e":3,"v":"d6"})); }
+    if rng.chance(1, 2) {
+        v.push(json!({"op":"repl","from":stale,"to":del}));
+        v.push(json!({"op":"repl","from":del,"to":stale}));
+    } else {
+        v.push(json!({"op":"repl","from":del,"to":stale}));
+        v.push(json!({"op":"repl","from":stale,"to":del}));
+    }
+    if rng.chance(1, 2) { v.push(json!({"op":"purge_ts","r":del})); }
+    v.push(json!({"op":"mesh"}));
+    v
+}
+
 /// seeded random script
 fn gen_script(rng: &mut Rng, n: usize, len: usize, mode: &str) -> Vec<J> {
     let mut v = vec![json!({"op":"init","n":n})];
@@ -476,6 +531,9 @@ pub fn run(o: &Opts) -> i32 {
         let n = if o.get("replicas").is_some() { o.u64("replicas", 2) as usize } else if h % 2 == 0 { 2 } else { 3 };
         let len = rng.range(o.u64("minlen", 10), o.u64("maxlen", 40)) as usize;
         scripts.extend(gen_script(&mut rng, n, len, &mode));
+    }
+    for h in 0..o.u64("patterns", 0) {
+        scripts.extend(gen_lag_pattern(&mut rng, if h % 3 == 2 { 3 } else { 2 }));
     }
     rt.block_on(async {
         let mut w: Option<World> = None;
